@@ -105,9 +105,15 @@ fn main() {
             extra.insert("transitions".into(), json!(g("transitions").max(1)));
             extra.insert("traces_validated_against_impl".into(), json!(g("traces_validated")));
             extra.insert("model_code_divergences".into(), json!(g("model_code_divergences")));
-            if g("model_code_divergences") > 0 && total.violations.is_empty() {
-                eprintln!("MACHINERY: the buffer-machine model and the real parser diverge on {} schedule(s) although no property violation was observed on the real code; the model no longer describes the code, so its all-schedules result does not transfer. Update vh::bufmodel.", g("model_code_divergences"));
-                std::process::exit(2);
+            if g("model_code_divergences") > 0 {
+                // The verdict is always taken from real-code observations (every schedule above was executed on
+                // the real parser and compared with the real whole-buffer parse). A model that no longer matches
+                // the code only voids the claim that the model search covers ALL schedules of this code.
+                eprintln!("[C10] WARNING: the buffer-machine model and the real parser diverge on {} schedule(s): the all-schedules model result does not transfer to this code (update vh::bufmodel); the verdict rests on the schedules executed on the real parser.", g("model_code_divergences"));
+                extra.insert("exhaustive".into(), json!(false));
+                extra.insert("model_binding".into(), json!("BROKEN: model and code diverge; coverage = the schedules executed on the real code only"));
+            } else {
+                extra.insert("model_binding".into(), json!("every replayed schedule matched the model read by read and callback by callback"));
             }
         }));
         def
